@@ -20,13 +20,13 @@ PROPERTY = "C10"
 LEVEL = "other"
 ENGINE = "crosshair+z3"
 TECHNIQUE = "CrossHair-enumerated symbolic membership and -D bits over the real finder.find/get_setmap against a reference preprocessor"
-FUNCTIONS = ["codebasin/finder.py:find", "codebasin/finder.py:ParserState.insert_file/associate/get_setmap",
+FUNCTIONS = ["codebasin/__main__.py:_main (up to finder.find)", "codebasin/tree.py:cli/_tree (up to finder.find)", "codebasin/finder.py:find", "codebasin/finder.py:ParserState.insert_file/associate/get_setmap",
              "codebasin/preprocessor.py:IncludeNode.evaluate_for_platform"]
 STUBS = ["vp.memfs mounted; the CodeBase is a FakeCodeBase whose member list is the symbolic input"]
 ASSUMPTIONS = ["exclusion by pattern / location is abstracted as one membership bit per file (gitignore semantics: C09)",
-               "the equivalence of -x and [codebase].exclude is a two-line list concatenation in __main__/tree and is outside the claim",
+               "cli/: the real codebasin.__main__._main and codebasin.tree.cli run on a scratch tree up to their call of finder.find (replaced by a probe that lists the CodeBase); pattern semantics themselves are C09's subject",
                "once the bits are decided the real code runs untraced on that leaf"]
-BOUNDS = {"quick": "5 scenarios with 3-5 files (one header outside the root): all 2^files membership patterns x 2 -D bits x two platforms",
+BOUNDS = {"quick": "5 scenarios with 3-5 files (one header outside the root): all 2^files membership patterns x 2 -D bits x two platforms; cli/: 6 pattern lists (negations, repeats, anchored) x every split into -x / analysis file x 2 tools",
           "thorough": "same (exhausted)"}
 EXPLANATION = ("Membership bits and -D bits are symbolic bools exhausted by CrossHair; on every leaf the real finder.find is run with the member "
                "list and with all files, the two attributions and the reference preprocessor's are compared line by line, and get_setmap is "
@@ -180,12 +180,157 @@ def h_excl(m0: bool, m1: bool, m2: bool, m3: bool, m4: bool, d0: bool, d1: bool)
     return why is None
 
 
+# --------------------------------------------------------------------------
+# cli/: the wiring of -x and [codebase].exclude in the two command-line tools.  The real `codebasin.__main__._main` and
+# `codebasin.tree.cli` run on a scratch tree up to the point where they hand the CodeBase to finder.find; the pattern
+# list is split at a symbolic position into a -x part and an analysis-file part.
+
+CLI_PATTERNS = [["*.h", "!keep.h"], ["!keep.h", "*.h"], ["sub/", "*.h"], ["b.c", "a.c", "b.c"], ["/*.c", "!/a.c"], ["zz*", "!zz_keep.c", "a.c"]]
+CLI_FILES = ["a.c", "keep.h", "other.h", "sub/b.c", "sub/keep.h", "zz_gen.c", "zz_keep.c"]
+
+
+class _Stop(Exception):
+    pass
+
+
+def _cli_members(tool, xs, fs_):
+    import contextlib
+    import io
+    import json
+    import logging
+    import os
+    import shutil
+    import sys
+    import tempfile
+
+    import codebasin.finder as finder
+
+    scratch = os.path.realpath(tempfile.mkdtemp(prefix="vp_c10_"))
+    seen = {}
+
+    def fake_find(rootdir, codebase, configuration, *a, **k):
+        seen["members"] = sorted(os.path.relpath(str(f), scratch) for f in codebase)
+        seen["contains"] = sorted(n for n in CLI_FILES if os.path.join(scratch, n) in codebase)
+        seen["platforms"] = sorted(configuration)
+        raise _Stop()
+
+    log = logging.getLogger("codebasin")
+    saved = (os.getcwd(), sys.argv[:], finder.find, log.handlers[:], log.level)
+    try:
+        for n in CLI_FILES:
+            os.makedirs(os.path.dirname(os.path.join(scratch, n)) or scratch, exist_ok=True)
+            with open(os.path.join(scratch, n), "w") as f:
+                f.write("int x;\n")
+        with open(os.path.join(scratch, "cc.json"), "w") as f:
+            json.dump([{"directory": scratch, "file": "a.c", "arguments": ["gcc", "-c", "a.c"]}], f)
+        with open(os.path.join(scratch, "analysis.toml"), "w") as f:
+            if fs_:
+                f.write("[codebase]\nexclude = [%s]\n\n" % ", ".join(json.dumps(x) for x in fs_))
+            f.write('[platform.p]\ncommands = "cc.json"\n')
+        argv = []
+        for x in xs:
+            argv += ["-x", x]
+        argv.append("analysis.toml")
+        os.chdir(scratch)
+        finder.find = fake_find
+        out = io.StringIO()
+        try:
+            with contextlib.redirect_stdout(out), contextlib.redirect_stderr(out):
+                if tool == 0:
+                    import codebasin.__main__ as cbi_main
+
+                    sys.argv = ["codebasin"] + argv
+                    cbi_main._main()
+                else:
+                    import codebasin.tree as cbi_tree
+
+                    cbi_tree.cli(argv)
+        except _Stop:
+            pass
+        return seen
+    finally:
+        os.chdir(saved[0])
+        sys.argv = saved[1]
+        finder.find = saved[2]
+        for h in log.handlers[:]:
+            if h not in saved[3]:
+                log.removeHandler(h)
+                try:
+                    h.close()
+                except Exception:
+                    pass
+        log.setLevel(saved[4])
+        shutil.rmtree(scratch, ignore_errors=True)
+
+
+def _cli_expected(patterns):
+    """what CodeBase(root, exclude_patterns=patterns) yields on the same tree (pattern semantics themselves: C09)"""
+    import os
+    import shutil
+    import tempfile
+
+    from codebasin import CodeBase
+
+    scratch = os.path.realpath(tempfile.mkdtemp(prefix="vp_c10_"))
+    try:
+        for n in CLI_FILES:
+            os.makedirs(os.path.dirname(os.path.join(scratch, n)) or scratch, exist_ok=True)
+            with open(os.path.join(scratch, n), "w") as f:
+                f.write("int x;\n")
+        cb = CodeBase(scratch, exclude_patterns=list(patterns))
+        return sorted(os.path.relpath(str(f), scratch) for f in cb)
+    finally:
+        shutil.rmtree(scratch, ignore_errors=True)
+
+
+def h_cli(lst: int, k: int, tool: int) -> bool:
+    """
+    pre: 0 <= lst < len(CLI_PATTERNS) and 0 <= k <= 3 and 0 <= tool < 2
+    post: _
+    """
+    li = kk = tl = None
+    for j in range(len(CLI_PATTERNS)):
+        if lst == j:
+            li = j
+    for j in range(4):
+        if k == j:
+            kk = j
+    for j in range(2):
+        if tool == j:
+            tl = j
+    pats = CLI_PATTERNS[li]
+    if kk > len(pats):
+        return True
+    STATS["compared"] += 1
+    if P.get("_twin"):
+        return False
+    why = None
+    with scen.untraced():
+        try:
+            exp = _cli_expected(pats)
+            got = _cli_members(tl, pats[:kk], pats[kk:])
+            if "members" not in got:
+                why = "the tool never reached finder.find"
+            elif got["members"] != exp or got["contains"] != exp:
+                why = "members with -x %s + analysis file %s: %s (in: %s), CodeBase(exclude_patterns=%s): %s" % (
+                    pats[:kk], pats[kk:], got["members"], got["contains"], pats, exp)
+            elif got["platforms"] != ["p"]:
+                why = "platforms %s" % got["platforms"]
+        except Exception as e:
+            why = "exception " + repr(e)
+    if P.get("_replay"):
+        LAST.update(tool=["codebasin", "codebasin.tree"][tl], x_patterns=pats[:kk], file_patterns=pats[kk:], why=why)
+    return why is None
+
+
 def obligations(tier, known):
-    return [Ob(id="excl/" + t, kind="ch", module=__name__, func="h_excl", params=dict(t=t), timeout=400, group="excl") for t in TEMPLATES]
+    obs = [Ob(id="excl/" + t, kind="ch", module=__name__, func="h_excl", params=dict(t=t), timeout=400, group="excl") for t in TEMPLATES]
+    obs.append(Ob(id="cli/exclude-wiring", kind="ch", module=__name__, func="h_cli", params={}, timeout=400, group="cli"))
+    return obs
 
 
 CLAIM = ("For every subset of excluded files (including compiled files, providers of macros, forced includes and a header outside the root) "
          "and every -D choice in 5 scenarios, per-line attribution is unchanged and equals the reference preprocessor, and the platform-set "
          "table loses exactly the excluded files' lines - exhausted by CrossHair.")
 LEVEL_NOTE = ("Trusted: CrossHair/z3 for the enumeration, vp/memfs.py, vp/refs/ref_cpp.py. Bounded: 5 templates, <= 5 files, 2 platforms. "
-              "Pattern matching and the CLI's -x handling are outside.")
+              "Pattern matching is outside (C09); the CLI's -x / [codebase].exclude wiring is covered for 6 pattern lists x every split x both tools.")
